@@ -931,7 +931,10 @@ def breaker_state_tok(br) -> str:
 def budget_state_tok(b) -> str:
     if b is None:
         return "-"
-    return ",".join(str(to_ticks(t)) for t in b._events) or "-"
+    try:
+        return ",".join(str(to_ticks(t)) for t in b._events) or "-"
+    except (TypeError, AttributeError, ValueError):
+        return "unreadable"         # the private representation changed: shows as a `state` divergence
 
 
 # --------------------------------------------------------------------------- building objects
@@ -1015,8 +1018,14 @@ def build(env: Env, cfg: LoopCfg) -> Built:
         loop reads: nothing may have been cached at construction)"""
         if (env.wall_seed_bits & 2048) and not getattr(construct, "_inner", False):
             real = {"deadline_s": retry_kwargs["deadline_s"], "max_attempts": retry_kwargs["max_attempts"]}
-            retry_kwargs["deadline_s"] = real["deadline_s"] * 50 + 100.0
-            retry_kwargs["max_attempts"] = real["max_attempts"] + 7
+            if env.wall_seed_bits & (1 << 19):
+                # … or the other way round: built with a STRICTER cap / deadline that is relaxed afterwards (nothing
+                # derived from the construction-time values may survive, e.g. a per-class table pruned against them)
+                retry_kwargs["deadline_s"] = real["deadline_s"] / 2
+                retry_kwargs["max_attempts"] = min(real["max_attempts"], 1)
+            else:
+                retry_kwargs["deadline_s"] = real["deadline_s"] * 50 + 100.0
+                retry_kwargs["max_attempts"] = real["max_attempts"] + 7
             # … and, for half of these, the per-class table, the UNKNOWN cap and the budget as well (the public
             # attributes `_RetryState` reads on every failure; `RetryPolicy.__setattr__` must forward them)
             more = bool(env.wall_seed_bits & (1 << 18))
